@@ -158,6 +158,59 @@ def text_of(evs):
     return events.events_text(evs, tc.PosTable())
 
 
+def other_spec():
+    """same zone / constant names as the harness spec, different geometry and values"""
+    from bloqade.geometry.dialects.grid import Grid
+    from bloqade.shuttle.arch import ArchSpec, Layout
+    traps = Grid.from_positions([100.0, 103.0, 107.0, 112.0], [50.0, 52.0, 55.0])
+    aux = Grid.from_positions([-20.0, -18.5, -17.0], [1.0, 2.5, 3.0, 4.0])
+    park = Grid.from_positions([-40.0, -38.0], [0.5, 1.5])
+    lay = Layout(static_traps={"traps": traps, "aux": aux}, fillable={"traps"}, has_cz={"traps"}, has_local={"aux"}, special_grid={"park": park})
+    return ArchSpec(layout=lay, float_constants={"pitch": 0.75, "dup": 3.25, "origin": 0.5}, int_constants={"rows": 4, "dup": 1, "zero": 3})
+
+
+def compilation_histories(ctx, S, nprog):
+    """the subroutines of a program are defined ONCE and shared by two compilations of its kernel: first with another spec,
+    then on a route with the spec under test; the events must still be those of the source under the spec under test"""
+    S2 = other_spec()
+    n_ok = 0
+    for i in range(nprog):
+        prog = move_prog.gen_move_prog(ctx.rng, autos=False, subs=True, spec_consts=True)
+        if not prog.subs:
+            continue
+        src = move_prog.render(prog)
+        nsrc = move_prog.render(prog, native_markers=True)
+        tw, mv = move_native.split_source(src)
+        subs_src, main_src = mv.rsplit("@move", 1)
+        try:
+            kernel_ns = {k: v for k, v in kernels.define(tw).items() if k in move_prog.TWEEZERS}
+            shared = {k: v for k, v in kernels.define(subs_src, S=S, **kernel_ns).items() if k in {n for n, _, _ in prog.subs}}
+            kernels.define("@move(arch_spec=S)" + main_src, S=S2, **kernel_ns, **shared)            # first compilation: the other spec
+        except Exception as e:
+            ctx.hist("compilation_histories", "definition error " + type(e).__name__)
+            continue
+        for dec, plain, label in (("@move", False, "run-time spec"), ("@move(arch_spec=S)", True, "compile-time spec")):
+            try:
+                m = kernels.define(dec + main_src, S=S, **kernel_ns, **shared)["main"]
+            except Exception as e:
+                ctx.fail({"kind": "route-refuses-to-compile", "history": "after a compilation with another spec", "error": type(e).__name__},
+                         {"src": src, "route": label}, f"{label}: compiling after the same subroutines were used by a compilation with another spec raises {type(e).__name__}")
+                continue
+            for args in prog.arg_tuples[:2]:
+                ref = move_native.run_native(nsrc, args, S, kernel_ns=kernel_ns)
+                if ref[0] != "ok":
+                    continue
+                st, evs, extra = events.run_events(m, args, S, plain=plain)
+                ctx.evaluations += 1
+                if st != "ok" or text_of(evs) != text_of(ref[1]):
+                    ctx.fail({"kind": "events-depend-on-compilation-history", "route": label},
+                             {"src": src, "args": repr(args), "history": ["define subroutines once", "compile kernel with ANOTHER spec", f"compile kernel again ({label}) and run with the spec under test"]},
+                             f"{label}: after the kernel's subroutines were shared with a compilation for another spec, args {args} execute {len(evs)} events that differ from the source under the spec under test")
+                else:
+                    n_ok += 1
+    ctx.count("compilation histories sharing subroutines across two specs: agree", n_ok)
+
+
 HEUR = {}        # program term -> {subroutine: AggressiveUnroll.inline_heuristic(code)}
 
 
@@ -240,6 +293,7 @@ def run(ctx):
                     ctx.hist("route_outcome", "differs")
                 else:
                     ctx.hist("route_outcome", "agrees")
+    compilation_histories(ctx, S, ctx.pick(10, 80))
     # ---- Coq: the source-level semantics of Model.MoveLang on the same programs ----
     byprog = {}
     for c in labels_cases:
